@@ -115,6 +115,7 @@ def explore(
 
     def _init() -> None:
         H.quiet_logging()
+        H.quiet_stderr()
         H.freeze(day)
         if init:
             init()
